@@ -710,6 +710,22 @@ func bodyC19(s *Sim) {
 		}
 	}
 	s.fairRounds(2)
+	if e := s.Store.GetEDS(def.NS, def.Name); e != nil && s.W.Extra["final"] == "canary-fail" && e.Status.Canary != nil && e.Spec.Strategy.Canary != nil && s.rngEnv.IntN(3) == 0 {
+		// The canary is validated and, before its rollout is over, the template is reverted: the
+		// replica set that was active a moment ago (and still has pods) is the canary now. It is this
+		// re-used replica set that the final command fails.
+		if act := s.Store.GetERS(def.NS, e.Status.ActiveReplicaSet); act != nil {
+			prev := letterOfTpl(&act.Spec.Template)
+			if t := s.RunCLI("canary-validate", key); t.Err == nil {
+				s.fairRounds(1)
+				s.userSetTemplate(def.NS, def.Name, prev)
+				s.fairRounds(2)
+				if e2 := s.Store.GetEDS(def.NS, def.Name); e2 != nil && e2.Status.Canary != nil && e2.Status.Canary.ReplicaSet == act.Name {
+					s.Stats.NonVacuous["C19.reused-replicaset-is-canary"]++
+				}
+			}
+		}
+	}
 	e := s.Store.GetEDS(def.NS, def.Name)
 	if e == nil {
 		return
